@@ -336,14 +336,14 @@ def stashOK (f : Form) : Bool :=
 /-- the variables written to config.lisp with their printed values, sorted by name -/
 abbrev Settings := List (String × String)
 
-/-- `setq` of a watched variable: the key is marked modified and the file rewritten -/
-def setVar (m : Settings) (k v : String) : Settings :=
-  match m with
+/-- insert before the first greater key (the file is written with `sort.Strings` order) -/
+def insertKV (k v : String) : Settings → Settings
   | [] => [(k, v)]
-  | (k', v') :: rest =>
-    if k = k' then (k, v) :: rest
-    else if k < k' then (k, v) :: (k', v') :: rest
-    else (k', v') :: setVar rest k v
+  | (k', v') :: rest => if k < k' then (k, v) :: (k', v') :: rest else (k', v') :: insertKV k v rest
+
+/-- `setq` of a watched variable: the key is marked modified (once) with its current value and the
+file rewritten -/
+def setVar (m : Settings) (k v : String) : Settings := insertKV k v (m.filter (fun kv => kv.1 != k))
 
 def lookup (m : Settings) (k : String) : Option String :=
   match m with
